@@ -18,8 +18,10 @@ CANARIES = {
     'repeat-allowed': ('wn.lmf', "        elif key is None or key in parent:\n            raise _unexpected(name, p)",
                        "        elif key is None:\n            raise _unexpected(name, p)"),
     'synset-ili-optional': ('wn.lmf', "            assert 'ili' in elem\n", ""),
-    'scan-first-quote': ('wn.lmf', """b'''\\\\b(id|version|label)\\\\s*=\\\\s*(?:"([^"]*)"|'([^']*)')'''""",
-                         """b'''\\\\b(id|version|label)\\\\s*=\\\\s*(?:["']([^"']*)["']|'([^']*)')'''"""),
+    'scan-first-quote': ('wn.lmf', """b'''([^\\\\s=]+)\\\\s*=\\\\s*(?:"([^"]*)"|'([^']*)')'''""",
+                         """b'''([^\\\\s=]+)\\\\s*=\\\\s*(?:["']([^"']*)["']|'([^']*)')'''"""),
+    'scan-named-only': ('wn.lmf', """b'''([^\\\\s=]+)\\\\s*=\\\\s*(?:"([^"]*)"|'([^']*)')'''""",
+                        """b'''\\\\b(id|version|label)\\\\s*=\\\\s*(?:"([^"]*)"|'([^']*)')'''"""),
     'scan-blocks': ('wn.lmf', "        for m in lex_re.finditer(fh.read()):", "        for m in (mm for blk in iter(lambda: fh.read(65536), b'') for mm in lex_re.finditer(blk)):"),
     'doctype-any-version': ('wn.lmf', "    if doctype_decoded not in _DOCTYPES:\n        raise LMFError('invalid or missing DOCTYPE declaration')\n\n    return _DOCTYPES[doctype_decoded]",
                             "    if 'WN-LMF' not in doctype_decoded:\n        raise LMFError('invalid or missing DOCTYPE declaration')\n\n    return _DOCTYPES.get(doctype_decoded, '1.0')"),
@@ -225,10 +227,14 @@ def h_required(k: int) -> bool:
 VALUES = ['a', "Bob's", 'say "hi"', 'A&B <c>', "mix ' and \"", '', 'tab\there']
 
 
-def h_scan(k_id: int, k_label: int, k_ver: int, ext: bool, two: bool, pad: int) -> bool:
+OTHERS = ['e', 'x id="fake" y', "v version='9' w", 'label="no" id=\'z\'']
+
+
+def h_scan(k_id: int, k_label: int, k_ver: int, ext: bool, two: bool, pad: int, k_other: int) -> bool:
     """
     pre: k_id == rt.part(5)[0] and 0 <= k_label < 7 and 0 <= k_ver < 5 and 0 <= pad <= 40
-    pre: rt.THOROUGH or (pad in (0, 17) and k_ver < 2)
+    pre: 0 <= k_other < 4
+    pre: rt.THOROUGH or (pad in (0, 17) and k_ver < 2 and (k_other == 0 or k_label == 0))
     post: _
     """
     # the file text is what the real writer prints for the lexicon start tag and <Extends>
@@ -237,6 +243,8 @@ def h_scan(k_id: int, k_label: int, k_ver: int, ext: bool, two: bool, pad: int) 
     p = docs.P(dict(label=label))
     lexs = [docs.lexicon_small(p, lid or 'x', ver=ver or '0')]
     lexs[0]['label'] = label
+    # attributes the scan does not report, whose values look like the ones it does report
+    lexs[0]['email'] = lexs[0]['citation'] = _pick(OTHERS, k_other)
     if ext:
         e = docs.extension_small(docs.P(), 'X', base=(lid or 'x', ver or '0'))
         e['label'] = label
@@ -330,12 +338,14 @@ OBLIGATIONS = [
        symbolic='which of 23 identifying attributes is missing (or none)',
        bounds='one lexicon with one entity of each kind'),
     Ob('scan-vs-load', 'h_scan', parts=5, quick=dict(timeout=250), thorough=dict(timeout=900),
-       canary=[('scan-first-quote', 0), ('scan-blocks', 0)],
+       canary=[('scan-first-quote', 0), ('scan-named-only', 0), ('scan-blocks', 0)],
        functions=['wn.lmf.scan_lexicons', '_unescape_attr', '_dump_lexicon (start tag)',
                   '_dump_dependency'],
        stubs=['fake file; reference start-tag parser for what load() would read'],
        symbolic='id, version and label from ' + repr(VALUES) + ', an extension following the '
-                'lexicon, a further lexicon, padding that moves a start tag across the 64 KiB mark',
+                'lexicon, a further lexicon, padding that moves a start tag across the 64 KiB mark, '
+                'email / citation values that contain text looking like an id / version / label '
+                'attribute ' + repr(OTHERS),
        bounds='documents of 1-3 lexicons written by the real writer (both quote styles, entities, '
               'tabs)'),
     Ob('add-rejects-without-writing', 'h_add_rejected', quick=dict(timeout=120),
